@@ -156,6 +156,20 @@ Proof.
   - intros a b k Ha Hb. apply index_of_pair_nth in Ha as [_ Ha]. apply index_of_pair_nth in Hb as [_ Hb]. congruence.
 Qed.
 
+(* the form stated in Props: every pair gets a number and different pairs get different numbers
+   (which numbers are used is not part of the property) *)
+Lemma track_renumber_total_injective pairs :
+  (forall a, In a pairs -> exists k, track_map pairs a = Some k) /\
+  (forall a b k, track_map pairs a = Some k -> track_map pairs b = Some k -> a = b).
+Proof.
+  destruct (track_renumber_lemma pairs) as [A B]. split; [|exact B].
+  intros a Ha. destruct (A a Ha) as (k & E & _). exists k. exact E.
+Qed.
+
+(* the closing moment used by the checkers is the one of the element form of sound_offs *)
+Lemma closing_time_is_closing ns cs : closing_time ns cs = closing ns cs.
+Proof. reflexivity. Qed.
+
 (* ---- the hypotheses of sound_off_is_spec are satisfiable by a state in which the pedal
         extends one note up to a re-strike and another up to the pedal release *)
 Definition ex_notes : list note := [mkNote 60 64 0 1; mkNote 60 70 3 4; mkNote 62 50 (1#2) 6].
